@@ -137,6 +137,9 @@ ObsMsg(e) ==
 ObsEnd(e) ==
   IF mstage \notin {"reading", "failed"} THEN Fail("C18/harness/end-out-of-order")
   ELSE IF e.err = "panic" THEN Fail("C18/panic/read")
+  \* after a successful handshake an application write goes through (also when an earlier connection of the
+  \* same stream was given up with a write in flight)
+  ELSE IF mstage = "reading" /\ e.probe \notin {"", "ok"} THEN Fail("C18/not-fresh/" \o e.probe)
   ELSE IF mstage = "reading" /\ (e.ndeliv # mndel) THEN Fail("C18/harness/end-count")
   ELSE IF mstage = "reading" /\ mndel # mnsent THEN Fail("C18/leftover/" \o mfeat)
   ELSE IF mstage = "failed" /\ e.probe # "ok" THEN Fail("C18/half-open/" \o e.probe)
